@@ -1026,7 +1026,7 @@ class Array:
         if len(match) == 0:
             if insert:
                 res = np.zeros(self._get_block_shape(qindices), dtype=self.dtype)
-                self._data.append(res)
+                self._data = self._data + [res]  # not append: a shallow copy shares the list
                 self._qdata = np.append(self._qdata, [qindices], axis=0)
                 self._qdata_sorted = False
                 return res
